@@ -316,6 +316,10 @@ def names_for(rng, universe):
     return out
 
 
+BIG_LABELS = sorted(set([0, 9, 10, 99, 100, 4294967295, 4294967296, 2 ** 63 - 1, 2 ** 63, 2 ** 64 - 1, 2 ** 64 - 2, 10 ** 19, 10 ** 19 - 1, 10 ** 19 + 1,
+                         9999999999999999999, 12345678901234567890, 18446744073709551610] + [10 ** k for k in range(2, 19)] + [10 ** k - 1 for k in range(3, 19)]))
+
+
 class C14(Property):
     id = "C14"
     families = ["write"]
@@ -330,6 +334,9 @@ class C14(Property):
         for _ in range(k):
             u = rng.randint(1, 7)
             universe = rng.sample(range(1, 40), u)
+            if rng.random() < 0.06:
+                # usize labels of every decimal length up to the 20 digits of usize::MAX (number formatting in the ICCMA writers)
+                universe = rng.sample(BIG_LABELS, u)
             ops = rand_history(rng, rng.randint(3, 40), universe)
             names = names_for(rng, universe) if rng.random() < 0.8 else []
             ext = rng.sample(universe, rng.randint(0, u))
